@@ -20,7 +20,7 @@ pub struct C16;
 
 const NAMES: [&str; 4] = ["x", "y", "z", "w"];
 
-fn gen_case(r: &mut Prng) -> Case {
+fn gen_case(r: &mut Prng, big: bool) -> Case {
     let mut case = Case::new("C16");
     // registrations happen only before the threads start
     let hm = case.add_handler(HandlerSpec::plain(HKind::Func, Ret::Marker));
@@ -134,9 +134,9 @@ fn gen_case(r: &mut Prng) -> Case {
         pool.push((Prog::one(deep_fail), ctx.clone()));
         pool.push((Prog::one(deep_ok), ctx));
     }
-    let nthreads = if long_history { 1 } else { 1 + r.usize(3) };
+    let nthreads = if long_history { 1 } else { 1 + r.usize(if big { 4 } else { 3 }) };
     for _ in 0..nthreads {
-        let nops = if long_history { 60 + r.usize(200) } else { 1 + r.usize(4) };
+        let nops = if long_history { 60 + r.usize(200) } else { 1 + r.usize(if big { 6 } else { 4 }) };
         let mut ops = vec![];
         for _ in 0..nops {
             let (prog, ctx) = if long_history && r.chance(2, 3) { pool[pool.len() - 2 + r.usize(2)].clone() } else { r.pick(&pool).clone() };
@@ -271,12 +271,12 @@ impl Prop for C16 {
         10000 * tier.scale()
     }
 
-    fn run_index(&self, idx: u64, seed: u64, _tier: Tier, rt: &mut Rt) -> Vec<Violation> {
+    fn run_index(&self, idx: u64, seed: u64, tier: Tier, rt: &mut Rt) -> Vec<Violation> {
         let mut r = Prng::derive(seed, "C16.case", idx);
-        let case = Arc::new(gen_case(&mut r));
+        let case = Arc::new(gen_case(&mut r, tier == Tier::Thorough));
         rt.case_seen(case.fingerprint());
         let mut oracle = AloneOracle::new(&case);
-        let nsched = if case.threads.len() > 1 { 12 } else { 1 };
+        let nsched = if case.threads.len() > 1 { if tier == Tier::Thorough { 24 } else { 12 } } else { 1 };
         let mut sr = Prng::derive(seed, "C16.sched", idx);
         let mut decisions = 0;
         // reach
